@@ -283,6 +283,18 @@ func main() {
 	add(decIdx(100+0x63, 1), unhex("ff0000000000000080"), "corpus:voting-renewal-count-2^63")
 	add(decIdx(100+0x63, 1), unhex("ffffffffffffffffff"), "corpus:voting-renewal-count-2^64-1")
 	add(decIdx(100+0x63, 0), unhex("ff0000000000000080"), "corpus:voting-count-2^63")
+	// ConsensusStatus: the first count read fails in every way (the decoder returns nil)
+	for _, h := range []string{"", "fd", "fd01", "fdfc00", "fe010000", "feffff0000ab", "ff", "ff00000000000000", "ffffffffff00000000cd", "00000000", "01"} {
+		add(decIdx(400, 0), unhex("01000000 02000000 0300000000000000"+h), "corpus:consensusstatus-first-count")
+	}
+	// dpos Version: timestamps not on a millisecond, negative ones (accepted and truncated)
+	for _, h := range []string{"0100000000000000", "40420f0000000000", "ffffffffffffffff", "0000000000000080", "c0bdf0ffffffffff", "bfbdf0ffffffffff"} {
+		add(decIdx(419, 0), unhex(strings.Repeat("00", 33+16+16+2)+h), "corpus:dposversion-timestamp")
+	}
+	// FilterLoad: absent tail, count larger than the bytes that follow, too many hash functions
+	for _, h := range []string{"00 01000000 00000000 00", "00 01000000 00000000 00 00", "00 01000000 00000000 00 05 0102", "00 01000000 00000000 00 ff ffffffffffffffff 01", "00 33000000 00000000 00", "00 32000000 00000000 00 fd"} {
+		add(decIdx(306, 0), unhex(h), "corpus:filterload-tail")
+	}
 	ncorpus := len(cases)
 
 	// ---- generated
@@ -506,6 +518,25 @@ func main() {
 	if nfiles < 80 {
 		st.Fail("static:scan", "the decoder packages were not found under the repo", map[string]interface{}{"files": nfiles})
 	}
+	// every Deserialize method of the decoder packages must have a row in coq/model/C02_Cover.v;
+	// the table goes to coq/gen/C02_decoders.v for the agreement theorems
+	verifRoot := "."
+	if _, err := os.Stat(filepath.Join(verifRoot, "coq", "model")); err != nil {
+		verifRoot = "/verif"
+	}
+	rows := coverRows(verifRoot)
+	var unregistered []string
+	for _, d := range decoderTable {
+		if _, ok := rows[d]; !ok {
+			unregistered = append(unregistered, d)
+			st.Fail("static:unregistered:"+d, "decoder method without a descriptor (no row in coq/model/C02_Cover.v)", map[string]interface{}{"decoder": d})
+		}
+	}
+	if err := writeGen(verifRoot); err != nil {
+		st.Fail("static:gen", "could not write coq/gen/C02_decoders.v", map[string]interface{}{"err": err.Error()})
+	}
+	st.Extra["decoder_methods_in_source"] = len(decoderTable)
+	st.Extra["decoder_methods_unregistered"] = unregistered
 	st.Extra["static_files_scanned"] = nfiles
 	st.Extra["static_nonconstant_make_sites"] = sitesSeen
 	names := []string{}
@@ -515,7 +546,7 @@ func main() {
 	st.Extra["decoders_with_descriptor"] = names
 	st.Extra["decoders_count"] = len(names)
 	st.Extra["child_crashes"] = crashes
-	st.Extra["not_covered"] = "msg.FilterLoad (EOF-tolerant tail), dpos msg.ConsensusStatus (error swallowed after the header), dpos msg.Version (global payload version), CRCProposalInfo / keyframe decoders (C23)"
+	st.Extra["not_covered"] = "checkpoint / keyframe decoders of cr/state and dpos/state (C23), payload.CRCProposalInfo (used only by those), wallet, indexers, address managers"
 	st.Traces = st.Evals
 	sw.flush()
 	st.Write(run.Out)
